@@ -176,6 +176,60 @@ int main(int argc, char** argv) {
     if (!threw) RCHECK(memcmp(got.data(), data.data(), k) == 0, "content differs");
     return 0;
   }
+  if (m == "file_replace") {
+    // save_file / load_file through a real temporary file that ALREADY holds a longer content: the bytes loaded back must be
+    // exactly the bytes saved (POSIX: requires O_TRUNC on the save side and a non-modifying open on the load side)
+    string fn = A.extra.empty() ? "" : A.extra[0];
+    char path[] = "/tmp/verif-c14-XXXXXX";
+    int tfd = mkstemp(path);
+    if (tfd < 0) return 2;
+    string old_content = pattern(300, false);
+    if (::write(tfd, old_content.data(), old_content.size()) != (ssize_t)old_content.size()) return 2;
+    ::close(tfd);
+    size_t size = A.u("in_size");
+    if (size > 200) size = 200;
+    string data = pattern(size, true);
+    string got; bool threw = false;
+    try {
+      if (fn == "save_file") save_file(path, data.data(), data.size());
+      else if (fn == "save_file_str") save_file(path, data);
+      else if (fn == "load_file") { data = old_content; }
+      got = load_file(path);
+    } catch (const exception& e) { threw = true; printf("threw: %s\n", e.what()); }
+    string after;
+    { FILE* f = fopen(path, "rb"); char buf[1024]; size_t n = f ? fread(buf, 1, sizeof(buf), f) : 0; if (f) fclose(f); after.assign(buf, n); }
+    ::unlink(path);
+    printf("%s over an existing %zu-byte file: saved %zu bytes, load_file returned %zu bytes, file now holds %zu bytes\n", fn.c_str(), old_content.size(), data.size(), got.size(), after.size());
+    RCHECK(!threw, "threw on a writable temporary file");
+    RCHECK(got == data, "load_file(save_file(d)) != d: %zu bytes came back for %zu saved (stale tail of the previous content?)", got.size(), data.size());
+    RCHECK(after == data, "the file holds %zu bytes after the operation, expected %zu", after.size(), data.size());
+    return 0;
+  }
+  if (m == "list_directory") {
+    // a real temporary directory holding names around the "." / ".." boundary; the listing must be exactly these names
+    string fn = A.extra.empty() ? "" : A.extra[0];
+    char tmpl[] = "/tmp/verif-c14-dir-XXXXXX";
+    if (!mkdtemp(tmpl)) return 2;
+    string dir = tmpl;
+    vector<string> names = {"a", ".hidden", "..data", "...", "x..y", ".a", "..a", "....", "b."};
+    for (const auto& n : names) { FILE* f = fopen((dir + "/" + n).c_str(), "wb"); if (!f) return 2; fclose(f); }
+    vector<string> got; bool threw = false;
+    try {
+      if (fn == "list_directory_sorted") got = list_directory_sorted(dir);
+      else { auto st = list_directory(dir); got.assign(st.begin(), st.end()); }
+    } catch (const exception& e) { threw = true; printf("threw: %s\n", e.what()); }
+    for (const auto& n : names) ::unlink((dir + "/" + n).c_str());
+    ::rmdir(dir.c_str());
+    vector<string> want = names; sort(want.begin(), want.end());
+    bool was_sorted = is_sorted(got.begin(), got.end());
+    sort(got.begin(), got.end());
+    printf("%s over %zu entries: returned %zu names\n", fn.c_str(), names.size(), got.size());
+    RCHECK(!threw, "threw on a readable directory");
+    for (const auto& n : want) RCHECK(binary_search(got.begin(), got.end(), n), "entry \"%s\" is present in the directory but missing from the listing", n.c_str());
+    RCHECK(got.size() == want.size(), "listing has %zu names, the directory has %zu entries besides . and ..", got.size(), want.size());
+    if (fn == "list_directory_sorted") RCHECK(was_sorted, "list_directory_sorted result is not sorted");
+    return 0;
+  }
   if (m == "dirname_basename") {
     // path of g_plen characters whose last '/' is at g_ls (none if g_ls is npos); a second '/' earlier when there is room
     size_t n = A.u("g_plen"), ls = A.u("g_ls");
